@@ -53,6 +53,7 @@ type c05Case struct {
 	GraceMs   int64   `json:"grace_ms"`   // 0: production constant through RelayTCPContextWithRecords
 	Client    c05Side `json:"client"`     // what the client sends (read side of L)
 	Server    c05Side `json:"server"`     // what the upstream sends (read side of R)
+	WaitScale int64   `json:"wait_scale"` // multiplies every real-time patience of the harness (retries under load)
 	HorizonMs int64   `json:"horizon_ms"` // stop when virtual time is stuck (everything blocked for ever)
 
 	// kind "multi"
@@ -149,20 +150,22 @@ func (k *c05Clock) virtualAt(r time.Time) int64 {
 // toVirtual: absolute virtual ms of a real deadline t.
 func (k *c05Clock) toVirtual(t time.Time) int64 {
 	realNow := time.Now()
-	fit, nfit := int64(0), 0
+	// The smallest timeout whose instant of computation (t - T) lies inside this case's real-time window: a
+	// larger one can only fit as well when the case has been running for longer than the difference (heavy
+	// load), a smaller one only when the deadline was armed that much later than it was computed.
+	best := int64(-1)
+	bestT := int64(0)
 	for _, T := range k.timeouts {
 		r0 := t.Add(-time.Duration(T) * time.Millisecond)
 		if r0.Before(k.t0) || r0.After(realNow) {
 			continue
 		}
-		abs := k.virtualAt(r0) + T
-		if nfit == 0 || abs != fit {
-			nfit++
+		if best < 0 || T < bestT {
+			best, bestT = k.virtualAt(r0)+T, T
 		}
-		fit = abs
 	}
-	if nfit == 1 {
-		return fit
+	if best >= 0 {
+		return best
 	}
 	// unknown timeout: assume it was computed just now; relative part rounded to 500 ms
 	rel := t.Sub(realNow)
@@ -508,6 +511,22 @@ type c05Gate struct {
 	startRelay   chan struct{}
 }
 
+func c05Scale(cs *c05Case) time.Duration {
+	if cs.WaitScale > 1 {
+		return time.Duration(cs.WaitScale)
+	}
+	return 1
+}
+
+func c05Dump() string {
+	buf := make([]byte, 1<<16)
+	n := runtime.Stack(buf, true)
+	if n > 12000 {
+		n = 12000
+	}
+	return string(buf[:n])
+}
+
 func c05RunMem(cs *c05Case, gate *c05Gate) (res c05Result) {
 	clk := &c05Clock{stuck: make(chan struct{}), dlMemo: map[time.Time]int64{}, t0: time.Now()}
 	graceMs := int64(relayHalfCloseTimeout / time.Millisecond)
@@ -605,19 +624,20 @@ func c05RunMem(cs *c05Case, gate *c05Gate) (res c05Result) {
 		}
 		select {
 		case <-done:
-		case <-time.After(3 * time.Second):
-			res.Hang = "after stuck+cancel"
+		case <-time.After(20 * time.Second * c05Scale(cs)):
+			res.Hang = "after stuck+cancel\n" + c05Dump()
 		}
-	case <-time.After(5 * time.Second):
+	case <-time.After(30 * time.Second * c05Scale(cs)):
 		clk.mu.Lock()
-		res.Hang = fmt.Sprintf("watchdog: now=%d Lblocked=%v Rblocked=%v Lfin=%v Rfin=%v", clk.now, L.blocked, R.blocked, L.finished, R.finished)
+		res.Hang = fmt.Sprintf("watchdog: now=%d Lblocked=%v Rblocked=%v Lfin=%v Rfin=%v\n", clk.now, L.blocked, R.blocked, L.finished, R.finished)
 		clk.mu.Unlock()
+		res.Hang += c05Dump()
 		cancel()
 		_ = L.Close()
 		_ = R.Close()
 		select {
 		case <-done:
-		case <-time.After(2 * time.Second):
+		case <-time.After(10 * time.Second):
 		}
 	}
 	clk.mu.Lock()
@@ -736,7 +756,7 @@ func c05RunTCP(cs *c05Case) (res c05Result) {
 	var mu sync.Mutex
 	sink := func(c *net.TCPConn, buf *[]byte, eof *bool) {
 		defer wg.Done()
-		_ = c.SetReadDeadline(time.Now().Add(4 * time.Second))
+		_ = c.SetReadDeadline(time.Now().Add(60 * time.Second * c05Scale(cs)))
 		b := make([]byte, 64<<10)
 		for {
 			n, err := c.Read(b)
@@ -759,7 +779,7 @@ func c05RunTCP(cs *c05Case) (res c05Result) {
 	rr := &bpfRoutingResult{Outbound: cs.Outbound}
 	src := netip.MustParseAddrPort("10.0.0.2:40000")
 	dst := netip.AddrPortFrom(netip.MustParseAddr("93.184.216.34"), cs.Port)
-	ctx, cancel := context.WithTimeout(context.Background(), 4*time.Second)
+	ctx, cancel := context.WithTimeout(context.Background(), 45*time.Second*c05Scale(cs))
 	defer cancel()
 	relay, domain, reached, cleanups, perr := cp.verifC05Prologue(ctx, L, src, dst, rr)
 	res.Domain = domain
@@ -784,7 +804,7 @@ func c05RunTCP(cs *c05Case) (res c05Result) {
 	go func() { wg.Wait(); close(sinksDone) }()
 	select {
 	case <-sinksDone:
-	case <-time.After(150 * time.Millisecond):
+	case <-time.After(5 * time.Second * c05Scale(cs)):
 	}
 	mu.Lock()
 	res.UpEOF, res.DownEOF = upEOF, downEOF
@@ -838,8 +858,8 @@ func c05RunMulti(m *c05Case) map[string]any {
 		go func() { outs[i] <- c05RunMem(&m.Conns[i], gates[i]) }()
 		select {
 		case <-gates[i].prologueDone:
-		case <-time.After(8 * time.Second):
-			res[i].Hang = "prologue did not return"
+		case <-time.After(60 * time.Second * c05Scale(m)):
+			res[i].Hang = "prologue did not return\n" + c05Dump()
 		}
 	}
 	doR := func(i int) {
@@ -856,8 +876,8 @@ func c05RunMulti(m *c05Case) map[string]any {
 			if h != "" {
 				res[i].Hang = h
 			}
-		case <-time.After(20 * time.Second):
-			res[i].Hang = "relay did not return"
+		case <-time.After(120 * time.Second * c05Scale(m)):
+			res[i].Hang = "relay did not return\n" + c05Dump()
 		}
 	}
 	for _, op := range m.Order {
